@@ -23,6 +23,7 @@ import (
 	"math/rand"
 	"net"
 	"os"
+	"runtime/debug"
 	"strconv"
 	"strings"
 	"time"
@@ -48,6 +49,7 @@ type scnPool struct {
 	names      [scnNPos]string
 	prefixFree bool // no name is a proper prefix of another one (usable on the mem engine)
 	pats       []scnPat
+	nulPats    []scnPat // patterns that contain a 0x00 byte (known finding match-nul-pattern)
 }
 
 // a MATCH pattern and the pool positions (1-based) it matches, by construction.  Only
@@ -61,34 +63,41 @@ type scnPat struct {
 
 const scnUpper = "\xff\xff\xff\xff\xff"
 
-var scnLong = strings.Repeat("x", 9900)
-
-var scnPools = []scnPool{
-	// 0 plain
-	{names: [scnNPos]string{"a", "b", "c", "d", "e", "f"}, prefixFree: true,
-		pats: []scnPat{{"*[a-c]", []int{1, 2, 3}}, {"*e", []int{5}}, {"*", []int{1, 2, 3, 4, 5, 6}}, {"*z", nil}}},
-	// 1 prefix chain around the separators
-	{names: [scnNPos]string{"k", "k\x00", "k\x00\x00", "k:", "k:f", "k;"},
-		pats: []scnPat{{"*k", []int{1}}, {"*f", []int{5}}, {"*;", []int{6}}}},
-	// 2 0x00 / 0xff
-	{names: [scnNPos]string{"\x00", "\x00\xff", "\x01", "\xfe", "\xff", "\xff\xff"},
-		pats: []scnPat{{"*\x01", []int{3}}}},
-	// 3 separators inside keys (a key "t::a"-style: the table is what precedes the FIRST ':')
-	{names: [scnNPos]string{":", "::", ":a", "a:", "a::", "a:b"},
-		pats: []scnPat{{"*a", []int{3}}, {"*b", []int{6}}}},
-	// 4 the length bytes of a neighbour
-	{names: [scnNPos]string{"\x00\x01", "\x00\x01a", "\x00\x02", "\x01", "\x01\x00", "\x02"},
-		pats: []scnPat{{"*a", []int{2}}, {"*\x02", []int{3, 6}}}},
-	// 5 long names with a shared 9 900-byte prefix (close to the key size limit)
-	{names: [scnNPos]string{scnLong + "a", scnLong + "a\x00", scnLong + "b", scnLong + "b:", scnLong + "c", scnLong + "d"},
-		pats: []scnPat{{"*xb", []int{3}}, {"*d", []int{6}}}},
-	// 6 binary, prefix-free
-	{names: [scnNPos]string{"\x00\x01", "\x00\xff", "a\x00b", "a\x01", "a\xffz", "\xff\x00"}, prefixFree: true,
-		pats: []scnPat{{"*b", []int{3}}, {"*z", []int{5}}}},
-	// 7 long, prefix-free
-	{names: [scnNPos]string{scnLong + "a", scnLong + "b", scnLong + "c\x00", scnLong + "d", scnLong + "e\xff", scnLong + "f"}, prefixFree: true,
-		pats: []scnPat{{"*xb", []int{2}}, {"*f", []int{6}}}},
+// scnBuildPools builds the pools; longLen is the length of the shared prefix of the long
+// names (9 900 is close to the key size limit of 10 240 bytes)
+func scnBuildPools(longLen int) []scnPool {
+	scnLong := strings.Repeat("x", longLen)
+	return []scnPool{
+		// 0 plain
+		{names: [scnNPos]string{"a", "b", "c", "d", "e", "f"}, prefixFree: true,
+			pats: []scnPat{{"*[a-c]", []int{1, 2, 3}}, {"*e", []int{5}}, {"*", []int{1, 2, 3, 4, 5, 6}}, {"*z", nil}}},
+		// 1 prefix chain around the separators
+		{names: [scnNPos]string{"k", "k\x00", "k\x00\x00", "k:", "k:f", "k;"},
+			pats:    []scnPat{{"*k", []int{1}}, {"*f", []int{5}}, {"*;", []int{6}}},
+			nulPats: []scnPat{{"*k\x00", []int{2}}, {"*\x00", []int{2, 3}}}},
+		// 2 0x00 / 0xff
+		{names: [scnNPos]string{"\x00", "\x00\xff", "\x01", "\xfe", "\xff", "\xff\xff"},
+			pats: []scnPat{{"*\x01", []int{3}}}},
+		// 3 separators inside keys (a key "t::a"-style: the table is what precedes the FIRST ':')
+		{names: [scnNPos]string{":", "::", ":a", "a:", "a::", "a:b"},
+			pats: []scnPat{{"*a", []int{3}}, {"*b", []int{6}}}},
+		// 4 the length bytes of a neighbour
+		{names: [scnNPos]string{"\x00\x01", "\x00\x01a", "\x00\x02", "\x01", "\x01\x00", "\x02"},
+			pats: []scnPat{{"*a", []int{2}}, {"*\x02", []int{3, 6}}}},
+		// 5 long names with a shared 9 900-byte prefix (close to the key size limit)
+		{names: [scnNPos]string{scnLong + "a", scnLong + "a\x00", scnLong + "b", scnLong + "b:", scnLong + "c", scnLong + "d"},
+			pats: []scnPat{{"*xb", []int{3}}, {"*d", []int{6}}}},
+		// 6 binary, prefix-free
+		{names: [scnNPos]string{"\x00\x01", "\x00\xff", "a\x00b", "a\x01", "a\xffz", "\xff\x00"}, prefixFree: true,
+			pats:    []scnPat{{"*b", []int{3}}, {"*z", []int{5}}},
+			nulPats: []scnPat{{"*\x00b", []int{3}}, {"*\x00", nil}}},
+		// 7 long, prefix-free
+		{names: [scnNPos]string{scnLong + "a", scnLong + "b", scnLong + "c\x00", scnLong + "d", scnLong + "e\xff", scnLong + "f"}, prefixFree: true,
+			pats: []scnPat{{"*xb", []int{2}}, {"*f", []int{6}}}},
+	}
 }
+
+var scnPools = scnBuildPools(9900)
 
 // table triples (no ':' inside a table name; the table is everything before the first ':')
 var scnTables = [][3]string{
@@ -133,7 +142,9 @@ func scnOpen(eng string, policy common.ExpirationPolicy, parent string) (*scnWor
 	opts := &node.KVOptions{DataDir: dir, EngType: rockredis.EngType, ExpirationPolicy: policy, DataVersion: common.ValueHeaderV1}
 	opts.RockOpts.EngineType = eng
 	w := wait.New()
-	sm, err := node.NewStateMachine(opts, node.MachineConfig{}, 1, "default-0", nil, w, node.NewSlowLimiter("default-0"))
+	// no SlowLimiter: its slow-command metric panics on table names that are not valid UTF-8
+	// (reported for C11); nil is checked by the state machine
+	sm, err := node.NewStateMachine(opts, node.MachineConfig{}, 1, "default-0", nil, w, nil)
 	if err != nil {
 		return nil, err
 	}
@@ -173,6 +184,9 @@ func (wd *scnWorld) applyReq(dataType int8, data []byte, ts int64) (res interfac
 		if e := recover(); e != nil {
 			wd.panics++
 			res = fmt.Errorf("PANIC: %v", e)
+			if wd.panics <= 3 {
+				fmt.Fprintf(os.Stderr, "scansim: panic in apply: %v\n%s\n", e, debug.Stack())
+			}
 		}
 	}()
 	wd.nextID++
@@ -256,18 +270,19 @@ func scnCmd(args ...string) redcon.Command {
 // ------------------------------------------------------------------------------ driver
 
 type scnDrv struct {
-	wd    *scnWorld
-	tw    *trace.Writer
-	rng   *rand.Rand
-	tabs  [3]string
-	keys  *scnPool
-	subs  *scnPool
-	kpos  map[string]int
-	spos  map[string]int
+	wd   *scnWorld
+	tw   *trace.Writer
+	rng  *rand.Rand
+	tabs [3]string
+	keys *scnPool
+	subs *scnPool
+	kpos map[string]int
+	spos map[string]int
 	// coll[type][table][key position-1] = set of element positions (kv, list: {1} = exists)
-	coll  [5][3][scnNPos]map[int]bool
+	coll                                 [5][3][scnNPos]map[int]bool
 	nIter, nPage, nWrite, nForeign, nErr int
 	withMatch, revIters, concIters       int
+	revEmpty, nulPat                     bool
 }
 
 func (d *scnDrv) redisKey(t, k int) string { return d.tabs[t] + ":" + d.keys.names[k-1] }
@@ -606,7 +621,16 @@ func (d *scnDrv) iterate(sp scnSpace, cur, cnt int, rev bool, pat *scnPat, concu
 	if cnt == 0 {
 		mc = 100 // no COUNT argument: the documented default is far above the pool size
 	}
-	d.tw.Emit(trace.M{"ev": "begin", "pop": d.popOf(sp), "cur": cur, "cnt": mc, "rev": rev, "m": m})
+	kind := "coll:" + scnTypes[sp.ty]
+	if sp.k == 0 {
+		kind = "scan:" + scnTypes[sp.ty]
+		if sp.adv {
+			kind = "advscan:" + scnTypes[sp.ty]
+		}
+	}
+	// sp (which command family) and pn (the pattern contains 0x00) are for the report only
+	d.tw.Emit(trace.M{"ev": "begin", "pop": d.popOf(sp), "cur": cur, "cnt": mc, "rev": rev, "m": m,
+		"sp": kind, "pn": strings.IndexByte(ps, 0) >= 0})
 	d.nIter++
 	if rev {
 		d.revIters++
@@ -660,7 +684,16 @@ func (d *scnDrv) scanSpace(sp scnSpace, thin int) {
 		}
 	}
 	// the documented pitfall: a reverse iteration from the empty cursor has nothing below it
-	d.iterate(sp, 0, 2, true, nil, false)
+	// (left out on the mem engine: known finding mem-reverse-seek-prefix-bound)
+	if d.revEmpty {
+		d.iterate(sp, 0, 2, true, nil, false)
+	}
+	if d.nulPat {
+		for i := range pool.nulPats {
+			d.iterate(sp, 0, 1+d.rng.Intn(n+1), false, &pool.nulPats[i], false)
+			d.iterate(sp, scnNPos+1, 1+d.rng.Intn(n+1), true, &pool.nulPats[i], false)
+		}
+	}
 }
 
 func scansim(args []string) error {
@@ -675,7 +708,11 @@ func scansim(args []string) error {
 	thin := fs.Int("thin", 1, "run only every thin-th MATCH / arbitrary-cursor iteration (1 = all)")
 	policy := fs.String("policy", "local", "expiry policy: local | compact")
 	poolsel := fs.Int("pool", -1, "force the key/element pool (-1: by seed)")
+	revEmpty := fs.Bool("revempty", true, "include reverse iterations from the empty cursor")
+	nulPat := fs.Bool("nulpat", false, "include MATCH patterns that contain a 0x00 byte (known finding)")
+	longLen := fs.Int("long", 9900, "length of the shared prefix of the long names")
 	fs.Parse(args)
+	scnPools = scnBuildPools(*longLen)
 
 	pol := common.LocalDeletion
 	if *policy == "compact" {
@@ -699,7 +736,7 @@ func scansim(args []string) error {
 			usable = append(usable, i)
 		}
 	}
-	d := &scnDrv{wd: wd, rng: rng}
+	d := &scnDrv{wd: wd, rng: rng, revEmpty: *revEmpty, nulPat: *nulPat}
 	poolsUsed := map[int]bool{}
 	for seg := 0; seg < *nseg; seg++ {
 		if err := wd.clean(); err != nil {
@@ -715,7 +752,7 @@ func scansim(args []string) error {
 		ti := rng.Intn(len(scnTables))
 		if ki == 5 || ki == 7 {
 			// long keys: the whole "table:key" must stay below the key size limit
-			for len(scnTables[ti][0])+9910 > common.MaxKeySize {
+			for len(scnTables[ti][0])+*longLen+10 > common.MaxKeySize {
 				ti = rng.Intn(len(scnTables))
 			}
 		}
